@@ -94,6 +94,9 @@ type Evidence struct {
 // WriteEvidence writes /verif/evidence/<id>.json.
 func WriteEvidence(ev Evidence) {
 	dir := filepath.Join(VerifRoot(), "evidence")
+	if d := os.Getenv("VERIF_EVIDENCE_DIR"); d != "" {
+		dir = d
+	}
 	os.MkdirAll(dir, 0o755)
 	b, _ := json.MarshalIndent(ev, "", " ")
 	if err := os.WriteFile(filepath.Join(dir, ev.PropertyID+".json"), append(b, '\n'), 0o644); err != nil {
@@ -114,6 +117,9 @@ type ReplayFile struct {
 // WriteReplay writes the artefact and returns its path.
 func WriteReplay(r ReplayFile) string {
 	dir := filepath.Join(VerifRoot(), "replays")
+	if d := os.Getenv("VERIF_REPLAY_DIR"); d != "" {
+		dir = d
+	}
 	os.MkdirAll(dir, 0o755)
 	h := sha256.Sum256([]byte(r.Signature + "|" + strings.Join(r.Path, ";")))
 	p := filepath.Join(dir, fmt.Sprintf("%s-%s.json", r.Property, hex.EncodeToString(h[:6])))
